@@ -14,7 +14,7 @@ import fx
 from redcheck import tla_set
 
 PROP = 'C02'
-OPERANDS = ['A', 'B', 'G', 'P', 'Tz', 'D', 'AcB', 'GcA', 'ApB', 'I2v', 'I3v', 'H2', 'H3', 'AI', 'DI', 'R1', 'R1T', 'Hq', 'Pr', 'PrT', 'Bd', 'BdT']
+OPERANDS = ['A', 'B', 'G', 'P', 'Tz', 'D', 'AcB', 'GcA', 'ApB', 'I2v', 'I3v', 'H2', 'H3', 'AI', 'DI', 'R1', 'R1T', 'Hq', 'Pr', 'PrT', 'Bd', 'BdT', 'HHA']
 # operands whose parameters are integers (they can be built on int32 data)
 INT_OK = {'A', 'B', 'G', 'P', 'D', 'AcB', 'GcA', 'ApB', 'I2v', 'I3v', 'H2', 'H3'}
 THIRDS_Q = ['A', 'AcB', 'ApB', 'I2v', 'H2', 'AI', 'G', 'Tz']
